@@ -328,6 +328,13 @@ def vincdir_utm(zone1, east1, north1, grid1to2, grid_dist,
         (hemisphere2, zone2, east2,
          north2, psf2, gridconv2) = geo2grid(lat2, lon2,
                                              zone1, ellipsoid)
+        if hemisphere2.lower() != hemisphere.lower():
+            # Pt 2 on the equator (or an estimate that overshoots it): keep
+            # its northing in the convention of the line's hemisphere
+            if hemisphere.lower() == 'south':
+                north2 = min(north2 + utm.falsenorth, float(utm.falsenorth))
+            else:
+                north2 = max(north2 - utm.falsenorth, 0.0)
         lsf = line_sf(zone1, east1, north1,
                       zone2, east2, north2,
                       hemisphere, ellipsoid)
